@@ -9,6 +9,7 @@ CONSTANTS
   MaxTicks = 0
   SegCap = 2
   PeriodicAdv = FALSE
+  PeriodicFix = TRUE
   EnqAnywhere = FALSE
   Record = TRUE
 INVARIANTS TypeOK OnlyLegalRemovals PostInOrderH FirstAcceptInOrderH WaitFollowsRule
